@@ -22,6 +22,28 @@ def corpus() -> list[dict]:
     c.append(sig_case([("x", "a")], [(2,)], ret=("a b",), retval=((3, 3),)))
     c.append(sig_case([("x", ("a b", "b c", "c a"))], [((2, 3), (3, 4), (4, 3))]))       # third element: x[2]
     c.append(sig_case([("x", ("a", "a"))], [((2,), (3,))]))
+    # one annotation alias used bare and as the only element of a tuple hint (R18b: a cache keyed by the flattened annotations
+    # confused `Alias` with `tuple[Alias]`); both orders, conforming and violating
+    for ret_shape in ((2, 3), (2, 4)):
+        c.append({**sig_case([("x", "a b")], [(2, 3)], ret=("a b",), retval=(ret_shape,)), "share_aliases": True})
+        c.append({**sig_case([("x", ("a b",))], [((2, 3),)], ret="a b", retval=ret_shape), "share_aliases": True})
+        c.append({**sig_case([("x", ("a b",)), ("y", "a b")], [((2, 3),), ret_shape]), "share_aliases": True})
+    return c
+
+
+def alias_twins(rnd, base: dict) -> dict | None:
+    """The return hint becomes tuple[<the hint of some bare annotated parameter>] and the body returns that argument in a
+    one-element tuple; the case is written with shared aliases."""
+    bare = [p for p in base["params"] if p.get("hint") and p["hint"]["k"] == "ann" and isinstance(base["args"].get(p["name"]), dict)
+            and base["args"][p["name"]].get("k") == "arr" and not base.get("positional")]
+    if not bare or base.get("retval") == "raise":
+        return None
+    p = rnd.choice(bare)
+    c = copy.deepcopy(base)
+    c["ret"] = {"k": "tuple", "elts": [copy.deepcopy(p["hint"])]}
+    c["retval"] = {"k": "tup", "elts": [copy.deepcopy(base["args"][p["name"]])]}
+    c.pop("retval_same_as", None)
+    c["share_aliases"] = True
     return c
 
 
@@ -39,6 +61,12 @@ def run(tier: str, seed: int, rep: Report, model: Model) -> dict:
         else:
             p = GC.perturb(rnd, base)
             cases.append(p[0] if p else base)
+        if rnd.random() < 0.1:
+            tw = alias_twins(rnd, cases[-1])
+            if tw is not None:
+                cases.append(tw)
+        elif rnd.random() < 0.25:
+            cases[-1] = {**cases[-1], "share_aliases": True}
     # a tuple of another length than its hint: some annotated position has no value, or some value has no position - such a
     # call must not simply be accepted (today: ValueError from zip(strict=True))
     nmis = 0
